@@ -74,7 +74,7 @@ def run(ctx):
     ctx.assumptions += ["byte/row/column quantities < 2^32", "theorems assume Summarized/shapeOK of C02 (checked on every real tree by ./check C02)"]
     ctx.extra_lean_dirs = ["C02"]
     ctx.regen()
-    ctx.prove(["TsVerif.C06.Props", "TsVerif.C06.CursorProps", "TsVerif.C06.NodeProps", "TsVerif.C06.SiblingZw", "TsVerif.C06.NavVariants", "TsVerif.C06.FlatProps", "TsVerif.C06.FieldProps", "TsVerif.C06.SiblingNamed", "TsVerif.C06.SiblingNamedNext", "TsVerif.C06.NamedFcb", "TsVerif.C06.CursorFcb", "TsVerif.C06.FieldWitness"], "TsVerif/C06/Audit.lean")
+    ctx.prove(["TsVerif.C06.Props", "TsVerif.C06.CursorProps", "TsVerif.C06.NodeProps", "TsVerif.C06.SiblingZw", "TsVerif.C06.NavVariants", "TsVerif.C06.FlatProps", "TsVerif.C06.FieldProps", "TsVerif.C06.SiblingNamed", "TsVerif.C06.SiblingNamedNext", "TsVerif.C06.NamedFcb", "TsVerif.C06.CursorFcb", "TsVerif.C06.FieldWitness", "TsVerif.C06.CursorParent"], "TsVerif/C06/Audit.lean")
     driver = ctx.build_driver("tsv-c06")
     explorer = ctx.cargo_bin("c06")
     langdump = ctx.cunit("cunit_c02")
@@ -120,7 +120,7 @@ def run(ctx):
     unsorted_langs = set()
     skip_langs = set()
     par = {"parchk": 0, "parzw": 0, "parbad": 0, "parflat": 0, "nschk": 0, "nsout": 0, "nsbad": 0, "nsflat": 0,
-           "pschk": 0, "psout": 0, "psbad": 0, "psflat": 0, "cfcchk": 0, "cfcout": 0, "cfcbad": 0, "cfcflat": 0, "nnschk": 0, "nnsout": 0, "nnsbad": 0, "nnsflat": 0, "npschk": 0, "npsout": 0, "npsbad": 0, "npsflat": 0, "cbfchk": 0, "cbfout": 0, "cbfbad": 0, "cbfflat": 0, "cbfskip": 0, "nfcbchk": 0, "nfcbout": 0, "nfcbbad": 0, "nfcbflat": 0, "ndfrchk": 0, "ndfrbad": 0, "ndfrflat": 0, "pdfrchk": 0, "pdfrbad": 0, "pdfrflat": 0, "znschk": 0, "znsout": 0, "znsbad": 0, "zpschk": 0, "zpsout": 0, "zpsbad": 0, "pgenbad": 0, "znsoutpar": 0, "znsoutfollow": 0, "znsoutzw": 0, "zpsoutpar": 0, "zpsoutid": 0, "zpsoutzw": 0, "fcbchk": 0, "fcbout": 0, "fcbbad": 0, "fcbflat": 0, "dfrchk": 0, "dfrbad": 0, "dfrflat": 0}
+           "pschk": 0, "psout": 0, "psbad": 0, "psflat": 0, "cfcchk": 0, "cfcout": 0, "cfcbad": 0, "cfcflat": 0, "nnschk": 0, "nnsout": 0, "nnsbad": 0, "nnsflat": 0, "npschk": 0, "npsout": 0, "npsbad": 0, "npsflat": 0, "cparchk": 0, "cparbad": 0, "cbfchk": 0, "cbfout": 0, "cbfbad": 0, "cbfflat": 0, "cbfskip": 0, "nfcbchk": 0, "nfcbout": 0, "nfcbbad": 0, "nfcbflat": 0, "ndfrchk": 0, "ndfrbad": 0, "ndfrflat": 0, "pdfrchk": 0, "pdfrbad": 0, "pdfrflat": 0, "znschk": 0, "znsout": 0, "znsbad": 0, "zpschk": 0, "zpsout": 0, "zpsbad": 0, "pgenbad": 0, "znsoutpar": 0, "znsoutfollow": 0, "znsoutzw": 0, "zpsoutpar": 0, "zpsoutid": 0, "zpsoutzw": 0, "fcbchk": 0, "fcbout": 0, "fcbbad": 0, "fcbflat": 0, "dfrchk": 0, "dfrbad": 0, "dfrflat": 0}
     ns_bad_cases = []
     par_bad_cases = []
     per_clause = {}
@@ -159,7 +159,7 @@ def run(ctx):
                 or int(kv.get("psflat", "0") or 0) or int(kv.get("fcbbad", "0") or 0) or int(kv.get("fcbflat", "0") or 0)
                 or int(kv.get("dfrbad", "0") or 0) or int(kv.get("dfrflat", "0") or 0) or int(kv.get("znsbad", "0") or 0)
                 or int(kv.get("zpsbad", "0") or 0) or int(kv.get("pgenbad", "0") or 0)
-                or any(int(kv.get(k, "0") or 0) for k in ["cfcbad", "cfcflat", "nnsbad", "nnsflat", "npsbad", "npsflat", "cbfbad", "cbfflat", "nfcbbad", "nfcbflat", "ndfrbad", "ndfrflat", "pdfrbad", "pdfrflat"])) and len(ns_bad_cases) < 3:
+                or any(int(kv.get(k, "0") or 0) for k in ["cparbad", "cfcbad", "cfcflat", "nnsbad", "nnsflat", "npsbad", "npsflat", "cbfbad", "cbfflat", "nfcbbad", "nfcbflat", "ndfrbad", "ndfrflat", "pdfrbad", "pdfrflat"])) and len(ns_bad_cases) < 3:
             ns_bad_cases.append("%s: %s" % (cid, specs.get(cid, "")[:120]))
         fan = int(kv.get("fanout", "0") or 0)
         max_fanout = max(max_fanout, fan)
@@ -201,7 +201,7 @@ def run(ctx):
     ctx.oblige("corr:sexpOK-holds-on-real-trees(hypothesis of sexp_spec; trees with a hidden MISSING node are outside the theorem and "
                "reported by the judge)", sexp_hyp_bad == 0, "%d trees" % sexp_hyp_bad)
     ctx.oblige("corr:anonLeafOK-holds-on-real-trees(hypothesis of named_child_spec)", anon_hyp_bad == 0, "%d trees" % anon_hyp_bad)
-    ctx.oblige("corr:StackOK-linkage-holds-on-every-cursor-stack(hypothesis of cursor_next_sibling_spec)", stack_bad == 0, "%d stacks" % stack_bad)
+    ctx.oblige("corr:StackOK-linkage+IdxOK+TopVisible-hold-on-every-cursor-stack(hypotheses of cursor_next_sibling_spec, cursor_parent_is_parentOnPath, depth_parent)", stack_bad == 0, "%d stacks" % stack_bad)
     ctx.oblige("corr:hiddenExtraOK-holds-on-real-trees(hypothesis of field_name_for_child_spec)", hidden_extra_bad == 0, "%d trees" % hidden_extra_bad)
     ctx.oblige("corr:parent_spec-hypotheses-hold-on-every-relevant-node-of-real-trees(non-empty: pathOK, slot ids distinct along the search; empty: psPathOK of parent_spec_empty; "
                "and ported ts_node_parent = parentOnPath)", par["parbad"] == 0 and (par["parchk"] > 0 or evals == 0 or bool(ctx.replay)),
@@ -247,6 +247,11 @@ def run(ctx):
                par["cfcbad"] == 0 and par["cfcflat"] == 0 and (par["cfcchk"] > 0 or evals == 0 or bool(ctx.replay)),
                "%d (cursor, goal) pairs checked, %d outside (dead end: finding cursor-first-child-for-byte-dead-end), %d bad, %d differ from flatten %s"
                % (par["cfcchk"], par["cfcout"], par["cfcbad"], par["cfcflat"], "; ".join(ns_bad_cases)))
+    ctx.oblige("corr:cursor_parent_is_parentOnPath+goto_parent_spec+depth_parent-conclusions-hold-on-every-positioned-cursor(hypotheses: linked stack with structural "
+               "indices, top entry visible - counted in StackOK-linkage; conclusion: goto_parent shows the node parentOnPath designates for the stack's path (id, subtree, alias), "
+               "depth decreases by one; on the root it fails)", par["cparbad"] == 0 and (par["cparchk"] > 0 or evals == 0 or bool(ctx.replay)),
+               "%d cursors checked, %d conclusion failures %s" % (par["cparchk"], par["cparbad"], "; ".join(ns_bad_cases)))
+    ctx.coverage["cursor_parent_spec"] = {"cursors_checked": par["cparchk"], "conclusion_failures": par["cparbad"]}
     ctx.coverage["cursor_first_child_for_spec"] = {k: par[k] for k in ["cfcchk", "cfcout", "cfcbad", "cfcflat"]}
     ctx.oblige("corr:next_sibling_spec_anon-NAMED-flag(ts_node_next_named_sibling; every relevant node of any width with nsPathOK, for zero-width nodes nsZwOKA, tree satisfies anonLeafOK): "
                "port = first NAMED element of laterOnPath = FT.nextSibling namedOnly",
